@@ -2489,7 +2489,14 @@ impl TrustedRuntimeWal {
             next_lsn
         };
         let writer_epoch = store.acquire_runtime_writer_epoch(next_lsn)?;
-        let next_lsn = writer_epoch.started_at_lsn;
+        // A successor of a writer epoch that committed nothing starts one LSN later than its
+        // predecessor: with committed history, keep appending at the first free LSN (as
+        // `refresh_cursor_from_store_for_writer` does) so that no LSN hole is written.
+        let next_lsn = if recovered_cursor.has_committed_history {
+            next_lsn
+        } else {
+            writer_epoch.started_at_lsn
+        };
         let writer_epoch = writer_epoch.epoch_id;
         let durability_mode = store.durability_mode();
         Ok(Self {
